@@ -619,6 +619,35 @@ def file_identity_order(run, model, rule):
                    "--input a.gom ./a.gom compiles the file twice; link then rejects the dependants (rebuild Main)")
 
 
+def r13_8(run, model):
+    run.rule("R13.8", "a compilation does not depend on what the process compiled before: no `static` item of the workspace holds mutable "
+                      "state (static mut, atomics, locks, cells, thread_local!); write-once caches of constant data (OnceLock / LazyLock) "
+                      "and plain constants are the only statics - a process-wide counter numbers the temporaries of the second compilation "
+                      "in a process differently from the first")
+    n = 0
+    pat = re.compile(r"^\s*(pub(\([^)]*\))?\s+)?static\s+(mut\s+)?([A-Za-z_][A-Za-z0-9_]*)\s*:\s*(.+?)\s*=")
+    for rel in model.src_files():
+        if "/tests/" in rel or rel.endswith("/tests.rs"):
+            continue
+        lines = run.facts.source_lines(rel)
+        for i, line in enumerate(lines, 1):
+            if "thread_local!" in line and not line.lstrip().startswith("//"):
+                n += 1
+                run.ob("R13.8", f"{rel.split('/')[-1]}|thread_local! #{n} holds no compilation state", False, site(rel, [i]), "thread-local state outlives one compilation")
+                continue
+            m_ = pat.match(line)
+            if not m_:
+                continue
+            n += 1
+            is_mut, name, ty = bool(m_.group(3)), m_.group(4), m_.group(5)
+            bad = is_mut or re.search(r"\b(Atomic\w+|Mutex|RwLock|Cell|RefCell|UnsafeCell|Condvar)\b", ty) is not None
+            run.ob("R13.8", f"{rel.split('/')[-1]}|static {name} holds no mutable state", not bad, site(rel, [i]),
+                   f"static {'mut ' if is_mut else ''}{name}: {ty}",
+                   witness="Gensym drawing from a `static AtomicI32`: compiling the same sources twice in one process (library use, language server, "
+                           "playground) gives `x0` the first time and `x60` the second, in every dump, the Go text and the .core file")
+    run.floor("static items of the workspace", n, 2)
+
+
 def run(run, model):
     cx = Ctx(run, model)
     run.try_rule(r13_1, cx)
@@ -626,6 +655,7 @@ def run(run, model):
     run.try_rule(r13_2, cx)
     run.try_rule(r13_3, cx)
     run.try_rule(r13_4, cx)
+    run.try_rule(r13_8, model)
     from rules import c14
     run.rule("R13.6", "the link order does not depend on the order of the inputs (shared with C14: link_cores always uses the canonical topo_sort)")
     run.try_rule(c14.canonical_link_order, model, "R13.6")
